@@ -19,9 +19,9 @@ RULE = (
     "of the R + R*P cells (realization, unperturbed | perturbation k) fails, for (R,P) up to (3,3) [quick: up to (3,2)], x the "
     "column carrying the NaN (objective 0 / objective 1 / constraint 0) x every realization_min_success 0..R x every "
     "perturbation_min_success 1..P x filter {none, sort, cvar} x estimator map {mean, stddev on objective 1} x "
-    "combined / split evaluation. Oracle: failed flags formula; functions/gradients None iff successes < threshold and the "
+    "per-realization / merged gradient estimation x combined / split evaluation. Oracle: failed flags formula; functions/gradients None iff successes < threshold and the "
     "same evaluation inside an optimizer step ends with TOO_FEW_REALIZATIONS; values equal the reference on the survivors, "
-    "the REAL code on the reduced ensemble (differential), and the exact slope combination for gradients. "
+    "the REAL code on the reduced ensemble (differential, for functions and - when the survivors lost no perturbation - for gradients, merged included), and the least-squares fit over the surviving perturbations for per-realization gradients. "
     "Trivial: nothing judged (abort by filter/estimator, which C14 judges)."
 )
 ASSUMPTIONS = [
@@ -42,7 +42,7 @@ def shape_v(P: int) -> int:
 
 
 def build_config(R: int, P: int, rms: int, pms: int, flt: str, emap: tuple[int, ...], weights: list[float] | None = None,
-                 window: tuple[int, int] | None = None) -> dict[str, Any]:
+                 window: tuple[int, int] | None = None, merge: bool = False) -> dict[str, Any]:
     V = shape_v(P)
     # no zero rows, any two rows independent and well conditioned
     design = [[0.5], [-0.25], [0.75]][:P] if V == 1 else [[0.5, 0.0], [0.0, -0.5], [0.5, 0.75]][:P]
@@ -51,8 +51,9 @@ def build_config(R: int, P: int, rms: int, pms: int, flt: str, emap: tuple[int, 
         "realizations": {"weights": weights if weights is not None else [float(i + 1) for i in range(R)], "realization_min_success": rms},
         "objectives": {"weights": [1.0, 3.0], "function_estimators": list(emap[:2])},
         "nonlinear_constraints": {"lower_bounds": [0.0], "upper_bounds": [np.inf], "function_estimators": [emap[2]]},
-        "function_estimators": [{"method": "mean"}, {"method": "stddev"}],
-        "gradient": {"number_of_perturbations": P, "perturbation_min_success": pms, "perturbation_magnitudes": 0.5},
+        "function_estimators": [{"method": "mean"}] if merge else [{"method": "mean"}, {"method": "stddev"}],
+        "gradient": {"number_of_perturbations": P, "perturbation_min_success": pms, "perturbation_magnitudes": 0.5,
+                     "merge_realizations": merge},
         "samplers": [{"method": "verif/design", "options": {"design": design}, "shared": True}],
     }
     if flt != "none":
@@ -85,7 +86,8 @@ def judge(case: dict[str, Any]) -> Judgement:
     fmap = fmap_of(flt)
     subset, nan_col, split = case["subset"], case["nan_col"], case["split"]
     V = shape_v(P)
-    config = validate(build_config(R, P, rms, pms, flt, emap))
+    merge = bool(case.get("merge"))
+    config = validate(build_config(R, P, rms, pms, flt, emap, merge=merge))
     base_fn = c02.ensemble(R, V, "distinct", case["seed"])
     # objective 0 stays affine (the filters rank on it); objective 1 and the constraint get a quadratic term so that a
     # failed perturbation that is NOT removed from the least-squares system changes the estimate
@@ -145,7 +147,7 @@ def judge(case: dict[str, Any]) -> Judgement:
                     return j
             j.fail(f"unexpected-abort:{aborted.name}", split=split)
         else:
-            alive = any(_weights_for(config, refc, fmap, f, failed_g) is not None for f in range(3))
+            alive = all(_weights_for(config, refc, fmap, f, failed_g) is not None for f in range(3))
             if alive:
                 j.fail(f"unexpected-exception:{aborted}", split=split)
             else:
@@ -198,8 +200,37 @@ def judge(case: dict[str, Any]) -> Judgement:
                             j.fail("differs-from-reduced-ensemble", function=f, observed=obs[f], reduced=red_obs[f])
                 except OptimizationAborted:
                     pass
-    # gradients: exact slopes over the surviving realizations / perturbations
-    if gres is not None and gres.gradients is not None and not expect_g_none:
+    # gradients, differential: the real code on the ensemble reduced to the realizations that survive the gradient
+    # evaluation (applicable when the survivors lost no perturbation, so the reduced run has the same rows)
+    if gres is not None and gres.gradients is not None and not expect_g_none and not split:
+        keep_g = np.flatnonzero(~failed_g)
+        # with a filter the weights are decided at the function level, so the reduced ensemble is only the same
+        # ensemble when the realization already failed there
+        same_level = flt == "none" or bool(np.array_equal(failed_g, failed_f))
+        if 0 < keep_g.size < R and bool(np.all(pert_ok[keep_g])) and same_level:
+            red_weights = [float(np.asarray(config.realizations.weights)[r]) for r in keep_g]
+            window = (0, max(0, R - 2))
+            if sum(red_weights) > 0 and (flt != "sort" or window[1] < keep_g.size):
+                red_config = validate(build_config(keep_g.size, P, min(rms, keep_g.size), pms, flt, emap, red_weights, window, merge=merge))
+                red_fn = AffineEnsemble(ens_fn.slopes[keep_g], ens_fn.offsets[keep_g], quad=ens_fn.quad)
+                red_ens = EnsembleEvaluator(red_config, None, TableEvaluator(red_fn, 2, 1), manager)
+                j.transitions += 1
+                try:
+                    _, red_g = red_ens.calculate(x, compute_functions=True, compute_gradients=True)
+                    if red_g.gradients is not None:
+                        pairs = [("objectives", gres.gradients.objectives, red_g.gradients.objectives),
+                                 ("constraints", gres.gradients.constraints, red_g.gradients.constraints),
+                                 ("weighted_objective", gres.gradients.weighted_objective, red_g.gradients.weighted_objective)]
+                        for name, a, b in pairs:
+                            if np.all(np.isfinite(np.asarray(b))) and not close(a, b, 1e-7):
+                                j.fail("gradient-differs-from-reduced-ensemble" + (":merged" if merge else ""), field=name, observed=a, reduced=b)
+                                break
+                        judged += 1
+                except OptimizationAborted:
+                    pass
+    # gradients: exact slopes over the surviving realizations / perturbations (per-realization estimation only; the
+    # merged estimator is judged by the reduced-ensemble differential above and by C02)
+    if gres is not None and gres.gradients is not None and not expect_g_none and not merge:
         delta = np.asarray(gres.evaluations.perturbed_variables) - np.asarray(gres.evaluations.variables)
         gobs = [np.asarray(gres.gradients.objectives)[0], np.asarray(gres.gradients.objectives)[1], np.asarray(gres.gradients.constraints)[0]]
         for f in range(3):
@@ -237,7 +268,7 @@ def judge(case: dict[str, Any]) -> Judgement:
         context = OptimizerContext(evaluator=ev2, plugin_manager=manager)
         plan = Plan(context)
         step = plan.add_step("optimizer")
-        cfg = build_config(R, P, rms, pms, flt, emap)
+        cfg = build_config(R, P, rms, pms, flt, emap, merge=merge)
         script = [[list(x), True, False], [list(x), False, True]] if split else [[list(x), True, True]]
         cfg["optimizer"] = {"method": "verif/scripted", "options": {"script": script}}
         j.transitions += 1
@@ -284,15 +315,17 @@ def run_shard(shard: dict[str, Any]) -> core.ShardResult:
                     for flt in FILTERS:
                         if flt != "none" and R == 1:
                             continue
-                        for emap in (0, 1):
+                        for emap, merge in ((0, False), (1, False), (0, True)):
                             for split in (False, True):
+                                if merge and tier == "quick" and (nan_col == 2 or flt == "cvar"):
+                                    continue
                                 if tier == "quick" and R * (P + 1) >= 9 and (nan_col == 1 or (emap == 1 and flt == "cvar")):
                                     continue  # quick: thin the largest shape (full in thorough)
                                 case = {"R": R, "P": P, "subset": subset, "nan_col": nan_col, "rms": rms, "pms": pms,
-                                        "filter": flt, "emap": emap, "split": split, "seed": shard["seed"],
+                                        "filter": flt, "emap": emap, "merge": merge, "split": split, "seed": shard["seed"],
                                         "step": nan_col == 0, "differential": not split}
                                 j = judge(case)
-                                rec.add((R, P, subset, nan_col, rms, pms, flt, emap, split), case, j)
+                                rec.add((R, P, subset, nan_col, rms, pms, flt, emap, merge, split), case, j)
     return rec.finish()
 
 
